@@ -93,7 +93,9 @@ func c08Eval(c *Ctx, tc *TrieCase, limit time.Duration, emit bool) *finding {
 		tc.WriteCase(c.Cases())
 		fmt.Fprintf(w, "C %s\n", tc.ID)
 	}
+	c.InFlight(tc.replayShort("C08", "the process died during NewSlimTrie", "an error or a trie"))
 	b := tc.buildTimed(limit)
+	c.Landed()
 	viol := firstViolation(tc.Keys)
 	maxLen := 0
 	for _, k := range tc.Keys {
